@@ -3,6 +3,8 @@ import Seccomp.Model.Oracle
 import Seccomp.Gen.Tables
 import Std.Data.HashMap
 import Seccomp.Driver.Loader
+import Seccomp.Driver.Cache
+import Seccomp.Driver.Profile
 /-!
 # Line-protocol driver of the executable model (`lean_exe model`)
 
@@ -293,6 +295,8 @@ def handle (A : Arches) (line : String) : String :=
      | some (r, []) => r
      | _ => "BAD-REQUEST")
   | "H" :: rest => Driver.Loader.handle rest
+  | "K" :: rest => Driver.Cache.handle rest
+  | "F" :: rest => Driver.Profile.handle (fun a => (A.infos.get? a).map (·.lookup)) rest
   | _ => "BAD-REQUEST"
 
 partial def loop (A : Arches) (hin hout : IO.FS.Stream) : IO Unit := do
